@@ -93,13 +93,6 @@ def decSym (j : Json) : Except String Sym := do
 
 def noEq : Expr → Expr → Bool := fun _ _ => false
 
-/-- the repaired oracle used to attribute a value change to finding F2:
-    the modulo query `e < m` additionally needs `0 <= e` -/
-def fixModOracle (O : OracleS) : OracleS := fun sc e op c =>
-  match op with
-  | .lt => O sc e .lt c && O sc e .ge 0
-  | .ge => O sc e .ge c
-
 def optInt (j : Json) : Option Int := match j.getInt? with | .ok v => some v | _ => none
 
 def handle (j : Json) : Except String Json := do
@@ -109,9 +102,7 @@ def handle (j : Json) : Except String Json := do
     let sizes ← (← (← j.getObjVal? "sizes").getArr?).toList.mapM decSym
     let preds ← decEs (← j.getObjVal? "preds")
     let body ← decB (← j.getObjVal? "body")
-    let fixmod := match j.getObjVal? "fixmod" with | .ok (Json.bool b) => b | _ => false
-    let O0 := rangeOracleS sizes
-    let O := if fixmod then fixModOracle O0 else O0
+    let O := rangeOracleS sizes
     match simplifyB O noEq body, simplifyPreds (O []) noEq preds with
     | some b, some ps =>
       -- (`map_proc` drops predicates that became `True`, but its result is discarded: `result()` uses `self.ir`)
